@@ -164,3 +164,60 @@ impl<'a> Packet<'a> {
         Ok(())
     }
 }
+
+// ---- which receive errors reset the stream (dc/s2n-quic-dc/src/stream/recv/error.rs, Error::is_fatal, WHOLE function) ------
+// C18 "changing any header, payload or tag byte gets it rejected and leaves stream data ... untouched": on a DATAGRAM transport
+// (`!features.is_stream()`: every packet can be forged by an off-path sender) a packet that fails to decode, fails
+// authentication, is a replayed duplicate or names other credentials / another stream is NEVER fatal -- the receiver keeps its
+// state (State::on_stream_packet calls on_error only `if err.is_fatal(..)`, statement below).  On a stream transport (TCP/TLS
+// framing) every error is fatal by design.
+#[derive(Clone, Copy, PartialEq, Eq, Structural)]
+pub struct TransportFeaturesX { pub stream: bool }
+impl TransportFeaturesX { pub fn is_stream(&self) -> (r: bool) ensures r == self.stream { self.stream } }
+pub enum Kind {
+    Decode, Crypto(u8), Duplicate, CredentialMismatch { expected: u64, actual: u64 }, StreamMismatch { expected: u64, actual: u64 },
+    OutOfOrder { expected: u64, actual: u64 }, MaxDataExceeded, InvalidFin, OutOfRange, UnexpectedRetransmission, TruncatedTransport,
+    IdleTimeout, KeyReplayPrevented, KeyReplayMaybePrevented { gap: Option<u64> }, UnknownPathSecret, TransportError { code: u64 },
+    ApplicationError { error: u64 }, UnexpectedPacket { packet: u8 },
+}
+pub struct RecvError { pub kind: Kind }
+pub open spec fn pre_authentication_kind(k: Kind) -> bool {
+    k is Decode || k is Crypto || k is Duplicate || k is CredentialMismatch || k is StreamMismatch
+}
+impl RecvError {
+    pub fn kind(&self) -> (r: &Kind) ensures *r == self.kind { &self.kind }
+//@ splice-fn dc/s2n-quic-dc/src/stream/recv/error.rs "Error" is_fatal vis=strip "subst=&TransportFeatures=>&TransportFeaturesX"
+//@| ensures
+//@|     features.stream ==> ret,
+//@|     !features.stream ==> ret == !pre_authentication_kind(self.kind),
+}
+
+pub struct StateF { pub features: TransportFeaturesX, pub errored: Ghost<bool>, pub next: Ghost<Result<(), RecvError2>> }
+impl StateF {
+    #[verifier::external_body]
+    pub fn on_error(&mut self, error: RecvError2, source: Location, publisher: &PubX) ensures final(self).errored@ { unimplemented!() }
+}
+#[derive(Clone, Copy, PartialEq, Eq, Structural)]
+pub struct RecvError2 { pub fatal_on_datagram: bool }
+impl RecvError2 {
+    // Error::is_fatal, contract proved above on the real text
+    pub fn is_fatal(&self, features: &TransportFeaturesX) -> (r: bool) ensures r == (features.stream || self.fatal_on_datagram) { features.stream || self.fatal_on_datagram }
+}
+impl StateF {
+    // State::on_stream_packet_impl: here an arbitrary result that does not itself reset the stream (its own ordering is decided above)
+    #[verifier::external_body]
+    fn on_stream_packet_impl(&mut self, opener: &OpenerX, control: &ControlX, credentials: &u8, packet: &mut DecoderPacket, ecn: ExplicitCongestionNotification, accept_state: u8, clock: &ClockX, out_buf: &mut OutBufX, publisher: &PubX) -> (r: Result<(), RecvError2>)
+        ensures r == old(self).next@, final(self).errored@ == old(self).errored@, final(self).features == old(self).features,
+    { unimplemented!() }
+
+    // the result handling of State::on_stream_packet (the `match self.on_stream_packet_impl(..) { .. }` statement, real text)
+    fn on_stream_packet_result(&mut self, opener: &OpenerX, control: &ControlX, credentials: &u8, packet: &mut DecoderPacket, ecn: ExplicitCongestionNotification, accept_state: u8, clock: &ClockX, out_buf: &mut OutBufX, publisher: &PubX) -> (ret: Result<(), RecvError2>)
+        requires !old(self).errored@,
+        ensures
+            // the stream is reset only for an error that is fatal for this transport; a non-fatal one leaves the state alone
+            final(self).errored@ <==> (old(self).next@ is Err && (old(self).features.stream || old(self).next@->Err_0.fatal_on_datagram)),
+            (ret is Ok) == (old(self).next@ is Ok), ret is Err ==> ret->Err_0 == old(self).next@->Err_0,
+    {
+//@ splice-stmts dc/s2n-quic-dc/src/stream/recv/state.rs "State" on_stream_packet "from=match self.on_stream_packet_impl(" dropstmt=tracing::debug!
+    }
+}
